@@ -210,12 +210,19 @@ func c05Get() {
 		started    bool
 		returned   bool
 		willCancel bool
+		byDeadline bool
 		delay      int
 	}
 	gets := make([]*get, nGets)
 	for i := range gets {
 		g := &get{willCancel: simrt.Chance(1, 3), delay: simrt.DrawRange(0, 3)}
 		g.ctx, g.cancel = context.WithCancel(context.Background())
+		if simrt.Chance(1, 5) {
+			// ended by a deadline instead of a cancel call: the error of a failed Get is this context's
+			g.ctx, g.cancel = context.WithTimeout(context.Background(), time.Duration(simrt.DrawRange(1, 4))*time.Microsecond)
+			g.willCancel, g.byDeadline = false, true
+			simrt.Probe("get_with_deadline_context")
+		}
 		gets[i] = g
 	}
 	puts := 0        // completed Puts
@@ -231,7 +238,11 @@ func c05Get() {
 			v, err := c.Get(g.ctx)
 			g.returned = true
 			if err != nil {
-				if !g.cancelled && !closing {
+				if g.byDeadline && !closing && g.ctx.Err() != nil && err != g.ctx.Err() && !g.cancelled {
+					simrt.Failf("C05.wrong-error", "Get %d failed with %v; its context ended with %v, and that is the error a Get interrupted by its context returns", i, err, g.ctx.Err())
+					return
+				}
+				if !g.cancelled && !closing && !(g.byDeadline && g.ctx.Err() != nil) {
 					simrt.Failf("C05.spurious-error", "Get %d returned %v although neither its context was cancelled nor the buffer closed", i, err)
 					return
 				}
